@@ -59,6 +59,11 @@ Section ExtLag.
       let s := nsqrt O ((one - nexp O (nneg O two * g * c_dt c * tsf_real c)) * m * c_kB c * c_temp c) in
       mkParams k m g s true.
 
+  (* the input checks of colvar::init_extended_Lagrangian: extendedTemp > 0, extendedFluctuation > 0, extendedTimeConstant > 0,
+     extendedLangevinDamping >= 0; otherwise the configuration is refused (input error) *)
+  Definition valid_config (c : config) : bool :=
+    nltb O zero (c_temp c) && nltb O zero (c_tol c) && nltb O zero (c_tau c) && negb (nltb O (c_damping c) zero).
+
   (* ---- distances of the variable (colvar::dist2, dist2_lgrad, wrap) ---- *)
   Definition cv_dist2 (c : config) (x1 x2 : T) : T :=
     match c_period c with None => sc_dist2 O x1 x2 | Some (P, _) => per_dist2 O P x1 x2 end.
